@@ -19,11 +19,13 @@
  *        kinds: g genuine | e genuine with Echo = the server's current echo_value |
  *               x genuine with a wrong Echo | f genuine with the last tag byte flipped |
  *               F protected under another master secret | P Partial IV bytes of a genuine
- *               message overwritten with <hexseq>
+ *               message overwritten with <hexseq> | K genuine with the kid changed (no security
+ *               context) | O genuine with a reserved flag bit set in the OSCORE option
  *        A token that occurred earlier in the same case re-delivers the very same datagram (a
  *        replay on the wire).
  *        -> per message  <A|R|D|C|E|?code>,<last_seq>,<window>,<initial>
  *           A handler ran; R 4.01 unprotected; D 4.00; C protected reply, handler did not run;
+ *           N 4.02, or 4.01 "Security context not found";
  *           E nothing (or an empty ACK) sent
  *
  *   sst <freq> <hexstart> { p | c<freq> }*
@@ -41,7 +43,7 @@
  *           (e = sent by the client while it was processing a datagram from the server;
  *           replay & 1: after every request all client datagrams recorded so far are delivered
  *           again, tag r; replay & 2: before that, each with its last byte changed, tag f), then
- *           " | handler=<n> responses=<n> ok=<number of 2.05> codes=<list, may be cut>"
+ *           " | handler=<n> responses=<n> ok=<number of 2.05> spivdup=<server Partial IVs seen twice on the wire> codes=<list, may be cut>"
  *
  * <variant> names the model variant; it means nothing to the C code.
  */
@@ -285,6 +287,13 @@ static void cmd_rpu(void) {
 }
 
 /* ------------------------------------------------------------------ rpd */
+static int has_text(const uint8_t *b, size_t n, const char *t) {
+  size_t l = strlen(t);
+  for (size_t i = 0; i + l <= n; i++)
+    if (!memcmp(b + i, t, l)) return 1;
+  return 0;
+}
+
 static void classify(char *out, size_t outn, int calls_before) {
   if (handler_calls > calls_before) { snprintf(out, outn, "A"); return; }
   for (int k = 0; k < ncap; k++) {
@@ -293,6 +302,10 @@ static void classify(char *out, size_t outn, int calls_before) {
     if (cap_len[k] < 4) continue;
     if (dg[1] == 0) continue;                      /* empty ACK / RST */
     if (find_oscore_opt(dg, cap_len[k], &vl)) { snprintf(out, outn, "C"); return; }
+    if (dg[1] == COAP_RESPONSE_CODE(402) || has_text(dg, cap_len[k], "Security context not found")) {
+      snprintf(out, outn, "N");
+      return;
+    }
     if (dg[1] == COAP_RESPONSE_CODE(401)) { snprintf(out, outn, "R"); return; }
     if (dg[1] == COAP_RESPONSE_CODE(400)) { snprintf(out, outn, "D"); return; }
     snprintf(out, outn, "?%u%02u", dg[1] >> 5, dg[1] & 31);
@@ -345,6 +358,17 @@ static void cmd_rpd(void) {
       continue;
     }
     if (kind == 'f') dg[n - 1] ^= 0x01;
+    if (kind == 'K' || kind == 'O') {
+      size_t vl;
+      uint8_t *ov = find_oscore_opt(dg, n, &vl);
+      if (!ov || vl < 2) {
+        if (i > 5) putchar(' ');
+        printf("NOGEN");
+        continue;
+      }
+      if (kind == 'K') ov[vl - 1] ^= 0x55;
+      else ov[0] |= 0x40;
+    }
     if (kind == 'P') {
       size_t vl;
       uint8_t *ov = find_oscore_opt(dg, n, &vl);
@@ -434,6 +458,8 @@ static coap_response_t hnd_resp(coap_session_t *s, const coap_pdu_t *sent, const
 
 static client_t *pump_client;
 static int pump_first;
+static char spiv_list[1024];      /* Partial IVs the server put on the wire */
+static int spiv_dup;
 static uint8_t rec_buf[MAXMSG][160];
 static size_t rec_len[MAXMSG];
 static int nrec;
@@ -488,6 +514,20 @@ static int pump(int record, char tag) {
       }
     } else {
       /* server -> client; what the client sends while handling it is a reaction */
+      {
+        size_t vl;
+        uint8_t *ov = find_oscore_opt(dg, n, &vl);
+        if (ov && vl > 0 && (ov[0] & 7)) {
+          uint64_t piv = 0;
+          char item[24];
+          size_t l = strlen(spiv_list);
+          for (int k = 0; k < (ov[0] & 7); k++) piv = (piv << 8) | ov[1 + k];
+          snprintf(item, sizeof(item), ",%" PRIx64 ",", piv);
+          if (l == 0) { strcpy(spiv_list, ","); l = 1; }
+          if (strstr(spiv_list, item)) spiv_dup++;
+          if (l + strlen(item) < sizeof(spiv_list)) strcpy(spiv_list + l, item + 1);
+        }
+      }
       coap_lock_lock(c->ctx, return 0);
       coap_handle_dgram(c->ctx, c->sess, dg, n);
       coap_lock_unlock(c->ctx);
@@ -507,6 +547,8 @@ static void cmd_rpe(void) {
   replay = atoi(vtok[5]);
   resp_count = resp_205 = 0;
   resp_codes[0] = 0;
+  spiv_list[0] = 0;
+  spiv_dup = 0;
   nrec = 0;
   pump_client = &c;
   pump_first = 1;
@@ -543,8 +585,8 @@ static void cmd_rpe(void) {
       }
     }
   }
-  printf("%s| handler=%d responses=%d ok=%d codes=%s\n", pump_first ? "" : " ", handler_calls,
-         resp_count, resp_205, resp_codes[0] ? resp_codes : "-");
+  printf("%s| handler=%d responses=%d ok=%d spivdup=%d codes=%s\n", pump_first ? "" : " ",
+         handler_calls, resp_count, resp_205, spiv_dup, resp_codes[0] ? resp_codes : "-");
 done:
   client_down(&c);
   server_down();
